@@ -805,7 +805,13 @@ func (m *Monitors) checkLeaderCommit(n *Node, ci uint64) {
 	}
 	voters, have := 0, 0
 	var holders []string
-	for _, s := range d.Latest.Servers {
+	// the configuration in force is the newest one in the leader's own snapshot/log (what it holds in memory is
+	// judged by C07); a leader acting on a configuration that is no longer in its log must not commit on its terms
+	inForce := m.prevConfiguration(n, ^uint64(0))
+	if len(inForce.Servers) == 0 {
+		inForce = d.Latest
+	}
+	for _, s := range inForce.Servers {
 		if s.Suffrage != raft.Voter {
 			continue
 		}
